@@ -293,8 +293,11 @@ def save_event(tg, eid, blanks, lo=None, hi=None, use_t=True, threshold=None, gr
         kw["minimumIntervalLength"] = None
     elif threshold is not None:
         kw["minimumIntervalLength"] = threshold
+    left = "nothing"
     for fmt in FORMATS:
         fn = os.path.join(workdir, "out-%d-%d.%s" % (os.getpid(), eid, fmt))
+        if os.path.exists(fn):
+            os.remove(fn)
         try:
             tg.save(fn, fmt, blanks, reportingMode="silence", **kw)
             with open(fn, "r", encoding="utf-8", newline="") as f:
@@ -303,6 +306,7 @@ def save_event(tg, eid, blanks, lo=None, hi=None, use_t=True, threshold=None, gr
             st = type(ex).__name__
             pe = isinstance(ex, errors.PraatioException)
             texts = {}
+            left = "file" if os.path.exists(fn) else "nothing"      # what the raising save left at its (fresh) destination
             break
         finally:
             if os.path.exists(fn):
@@ -327,7 +331,7 @@ def save_event(tg, eid, blanks, lo=None, hi=None, use_t=True, threshold=None, gr
                     "long": code_file_text(texts["long_textgrid"], table, numid) if texts else empty},
           "jsons": {"json": doc_of_json(texts["json"], "json", table, numid) if texts else BADDOC,
                     "tgjson": doc_of_json(texts["textgrid_json"], "textgrid_json", table, numid) if texts else BADDOC},
-          "K": k_codes(table), "grid": grid is not None, "features": features or {}}
+          "K": k_codes(table), "grid": grid is not None, "features": features or {}, "left": left}
     return ev, texts
 
 
